@@ -1,66 +1,35 @@
-import TinodeVerif.Model.TopicSys
+import TinodeVerif.Props.C03
+import TinodeVerif.Model.TopicChan
 /-!
-C03 / C07, the system topic (`Model/TopicSys.lean`): "the system topic accepts any logged-in author without attachment" and
-"the system topic [admits] only root".
+C03, the clause "nor suspended": when an account is suspended the hub marks the loaded group topics it owns (and its loaded p2p
+topics) read-only; `C03.pub_refused_no_effect` then refuses every publish there. Re-activation makes them writable again.
 -/
 namespace Tinode.Props.C03
 open Tinode.World Tinode.Acs
 
-/-- a publish to the loaded system topic is not asked for an attachment nor for write permission: once the message is saved it is
-delivered, whoever the author is -/
-theorem sys_pub_needs_nothing (c : Ctx) (a : Actor) (content : String) (head : List (String × String)) (noEcho : Bool) (t : Topic)
-    (hl : c.w.live? sysName = some t) (hact : t.inactive = false) (hro : t.readOnly = false) :
-    let m : MsgRow := { seq := t.lastId + 1, sender := a.uid, head := pubHead a head, content := some content }
-    let r := c.saveMessage sysName m (isReader (eff (t.pud a.uid)) && a.uid ≠ "")
-    c.opPubSys a content head noEcho =
-      (match r.2 with | none => r.1.emit a.sid (ctrl 500 sysName) | some marked => r.1.deliverPub t a m marked noEcho) := by
-  intro m r
-  unfold Ctx.opPubSys
-  simp only [hl, hact, hro, Bool.false_eq_true, if_false]
-  rfl
+/-- after the hub has processed the suspension of `u`, every loaded topic owned by `u` is read-only -/
+theorem suspended_owner_topics_readonly (c : Ctx) (u : Uid) (hu : u ≠ "") (t' : Topic)
+    (h : t' ∈ (c.opUserState u true).w.live) (ho : t'.owner = u) : t'.readOnly = true := by
+  unfold Ctx.opUserState at h
+  simp only [List.mem_map] at h
+  obtain ⟨t, _, rfl⟩ := h
+  split at ho
+  · split
+    · rfl
+    · rename_i hc _; exact absurd hc (by assumption)
+  · rename_i hc
+    exact absurd (Or.inr ⟨hu, ho⟩) hc
 
-/-- … and the only refusals are the topic's own state: shutting down (503), read-only (403), or a store failure (500) -/
-theorem sys_pub_refusals (c : Ctx) (a : Actor) (content : String) (head : List (String × String)) (noEcho : Bool) (t : Topic)
-    (hl : c.w.live? sysName = some t) (hin : t.inactive = true) :
-    c.opPubSys a content head noEcho = c.emit a.sid (ctrl 503 sysName) := by
-  unfold Ctx.opPubSys
-  simp [hl, hin]
-
-/-- only a root session gets a subscription to `sys`: anybody else is refused, nothing is stored, nothing changes -/
-theorem sys_sub_root_only (c : Ctx) (t : Topic) (a : Actor) (want : String) (priv : PrivArg) (nf : Bool) (m : Mode)
-    (hnew : t.pud? a.uid = none) (hlvl : a.lvl ≠ .root)
-    (hparse : (if want = "" then Except.ok modeUnset else (unmarshal modeUnset want.toList)) = .ok m) :
-    c.thisUserSubSys t a want priv nf = (c.emit a.sid (ctrl 403 sysName), t, none) := by
-  unfold Ctx.thisUserSubSys
-  simp only [hparse, hnew]
-  simp [hlvl]
-
-/-- what a root session asks for on `sys` and is granted stays within JRWPD -/
-theorem sys_modes_within (m : Mode) :
-    ((if m = modeUnset then modeCSys else (m &&& modeCSys) ||| modeWrite ||| modeJoin) &&& ~~~modeCSys) = 0 ∨ m = modeUnset := by
-  by_cases h : m = modeUnset
-  · exact Or.inr h
-  · left
-    simp only [h, if_false]
-    have hw0 : modeWrite &&& ~~~modeCSys = 0 := by decide
-    have hj0 : modeJoin &&& ~~~modeCSys = 0 := by decide
-    apply BitVec.eq_of_getLsbD_eq
-    intro k _
-    have hw : (modeWrite.getLsbD k && !modeCSys.getLsbD k) = false := by
-      have := congrArg (fun x => BitVec.getLsbD x k) hw0
-      simp only [BitVec.getLsbD_and, BitVec.getLsbD_not, BitVec.getLsbD_zero] at this
-      cases hlt : decide (k < 32) <;> simp_all
-    have hj : (modeJoin.getLsbD k && !modeCSys.getLsbD k) = false := by
-      have := congrArg (fun x => BitVec.getLsbD x k) hj0
-      simp only [BitVec.getLsbD_and, BitVec.getLsbD_not, BitVec.getLsbD_zero] at this
-      cases hlt : decide (k < 32) <;> simp_all
-    rw [BitVec.getLsbD_and, BitVec.getLsbD_or, BitVec.getLsbD_or, BitVec.getLsbD_and, BitVec.getLsbD_not]
-    have hz : BitVec.getLsbD (0 : Mode) k = false := by simp
-    rw [hz]
-    generalize m.getLsbD k = a at *
-    generalize modeCSys.getLsbD k = b at *
-    generalize modeWrite.getLsbD k = w at *
-    generalize modeJoin.getLsbD k = j at *
-    cases a <;> cases b <;> cases w <;> cases j <;> simp_all
+/-- … and a topic which is neither owned by `u` nor a p2p topic of `u` is left as it was -/
+theorem suspension_leaves_others (c : Ctx) (u : Uid) (s : Bool) (t : Topic) (ht : t ∈ c.w.live)
+    (h1 : t.owner ≠ u) (h2 : isP2PKey t.name = false) : t ∈ (c.opUserState u s).w.live := by
+  unfold Ctx.opUserState
+  simp only [List.mem_map]
+  refine ⟨t, ht, ?_⟩
+  have : ¬((isP2PKey t.name = true ∧ (t.pud? u).isSome = true) ∨ (u ≠ "" ∧ t.owner = u)) := by
+    rintro (⟨hp, _⟩ | ⟨_, ho⟩)
+    · rw [h2] at hp; cases hp
+    · exact h1 ho
+  rw [if_neg this]
 
 end Tinode.Props.C03
